@@ -118,12 +118,33 @@ class World:
             def __iter__(self):
                 return iter(self._it)
 
+        _T = typing.TypeVar(f"TG_{n}")
+
+        class GL(typing.List[_T]):             # user generic with an unerased pseudo-superclass list[T]
+            pass
+
+        class G(typing.Generic[_T]):           # plain user generic
+            pass
+
+        @typing.runtime_checkable
+        class HasM(typing.Protocol):
+            def m(self): ...
+
+        class PM:                              # structurally implements HasM
+            def m(self):
+                return 1
+
+        for c in (GL, G, HasM, PM):
+            c.__name__ = c.__qualname__ = f"{c.__name__}_{n}"
+        self.GL, self.G, self.HasM, self.PM = GL, G, HasM, PM
+        self.pm, self.og = PM(), G()
         for c in (USeq, UColl, UMap, UIter):
             c.__name__ = c.__qualname__ = f"{c.__name__}_{n}"
         self.USeq, self.UColl, self.UMap, self.UIter = USeq, UColl, UMap, UIter
         self.classes = {"int": int, "bool": bool, "str": str, "float": float, "complex": complex,
                         "NoneType": type(None), "A": self.A, "B": self.B, "list": list, "dict": dict,
-                        "object": object, "tuple": tuple}
+                        "object": object, "tuple": tuple, "HasM": self.HasM, "PM": self.PM, "G": self.G,
+                        "GL": self.GL}
         self._tv = 0
 
     # ------------------------------------------------------------------ objects
@@ -145,6 +166,10 @@ class World:
             return self.oa
         if c == "B":
             return self.ob
+        if c == "PM":
+            return self.pm
+        if c == "G":
+            return self.og
         raise KeyError(c)
 
     def obj(self, o):
@@ -179,6 +204,8 @@ class World:
             return tuple(items)
         if c == "deque":
             return collections.deque(items)
+        if c == "GL":
+            return self.GL(items)
         if c == "USeq":
             return self.USeq(items)
         if c == "UColl":
@@ -283,6 +310,8 @@ class World:
         if k == "items":
             kk, vv = self.hint(a[0], sp), self.hint(a[1], sp)
             return T.ItemsView[kk, vv] if sp % 2 else cabc.ItemsView[kk, vv]
+        if k == "gen":
+            return (self.GL if s == "GL" else self.G)[self.hint(a[0], sp)]
         if k == "ann":
             base = self.hint(a[0], 0)
             vals = tuple(self.validator(v) for v in h["m"])
@@ -405,6 +434,8 @@ def short_hint(h) -> str:
         return "Annotated[" + short_hint(a[0]) + "," + ",".join(short_val(v) for v in h["m"]) + "]"
     if k == "shallow":
         return s + "[..]"
+    if k == "gen":
+        return s + "[" + short_hint(a[0]) + "]"
     if s == "tuple":
         return "tuple[" + short_hint(a[0]) + ",...]"
     return s + "[" + ",".join(short_hint(c) for c in a) + "]"
@@ -432,7 +463,7 @@ def short_obj(o) -> str:
     if k == "atom":
         return {"int": str(o["v"]), "bool": str(bool(o["v"])), "float": {1: "1.0", 25: "2.5"}.get(o["v"], "?"),
                 "complex": "77j", "str": {101: "'a'", 102: "'b'"}.get(o["v"], "?"), "NoneType": "None",
-                "A": "A()", "B": "B()"}[o["cls"]]
+                "A": "A()", "B": "B()", "PM": "PM()", "G": "G()"}[o["cls"]]
     if k == "type":
         return "<class " + o["cls"] + ">"
     if k == "map":
